@@ -11,14 +11,14 @@ import (
 
 // FuncResult: everything generated for one function under contract.
 type FuncResult struct {
-	Key      string
-	Con      *Contract
-	Fn       *ssa.Function
-	Enc      *Enc
-	Err      string // generation failure (function outside subset, contract error)
-	Pos      string
-	SSASize  int
-	Callees  []string
+	Key     string
+	Con     *Contract
+	Fn      *ssa.Function
+	Enc     *Enc
+	Err     string // generation failure (function outside subset, contract error)
+	Pos     string
+	SSASize int
+	Callees []string
 }
 
 func newEnc(w *World, fn *ssa.Function, fname string) *Enc {
@@ -55,6 +55,7 @@ func (w *World) verifyFunc(con *Contract) (res *FuncResult) {
 			panic(r)
 		}
 	}()
+	e.curRet = -1
 	in := e.newInst(fn, nil)
 	in.con = con
 	in.recvNonNil = true
